@@ -223,6 +223,18 @@ def pref_hooks(prog: Program) -> Dict[str, object]:
     hooks: Dict[str, object] = {'symcall': symcall}
     for slot in slots:
         hooks[f'classattr:PreferredUnits.{slot}'] = classattr
+    # reading / writing a quantity in an *unknown* unit of its own dimension: uninterpreted, mutually inverse maps
+    def conv_hook(direction):
+        def h(ev, func, args, kwargs, st, self_val):
+            units = args[1] if len(args) > 1 else kwargs.get('units')
+            value = args[0] if args else kwargs.get('value')
+            if isinstance(units, SymObj) and units.path.startswith('PreferredUnits.') and isinstance(value, (Scalar, SymObj)):
+                return ev.lift(lambda v_: Scalar(A.fn(f'{direction}[{units.path}]', ev.scalar(v_))), value)
+            return None
+        return h
+    for dim in dimension_classes(prog):
+        hooks[f'call:{dim}.to_raw'] = conv_hook('to_raw')
+        hooks[f'call:{dim}.from_raw'] = conv_hook('from_raw')
     return hooks
 
 
@@ -317,3 +329,19 @@ def no_wrap_hooks() -> Dict[str, object]:
             return ev.mk_cond(v.test, strip(ev, v.a), strip(ev, v.b))
         return v
     return {'post:Angular.to_raw': strip}
+
+
+def read_raw_in(ev: Evaluator, prog: Program, dim: str, raw, unit_name: str):
+    """Oracle helper: the magnitude ``raw`` (RF / Scalar / symbol name) of dimension ``dim`` read in ``unit_name``
+    according to the analysed ``from_raw`` table of unit.py (validated against SI by C06) - deliberately not through
+    get_in / >>, so that a defect there does not distort what a rule expects.  Returns an RF."""
+    from ..abseval import Cond, cond_leaves
+    ci = prog.cls(M_UNIT, dim)
+    f = prog.find_method(ci, 'from_raw')
+    st = State()
+    selfv = ev.new_inst(st, ci, {})
+    rawv = raw if isinstance(raw, Scalar) else (S(raw) if isinstance(raw, str) else Scalar(raw))
+    v, _ = ev.call_value(f, [rawv, enum_val(prog, unit_name)], self_val=selfv, st=st)
+    if not isinstance(v, Scalar):
+        raise AnalysisError(f'{dim}.from_raw(x, {unit_name}) does not fold to one normal form: {v!r}')
+    return v.rf
